@@ -4,14 +4,23 @@ The real `Terminal._eeprom_read_one`, `read_eeprom`, `parse_sync_managers`, `par
 (EEPROM and SDO sources) and `EBPFTerminal.apply_eeprom` run in-process against a scripted
 EEPROM-interface device (register 0x502.. served through the real `EtherCat.roundtrip` codec),
 are judged by an oracle computed from the structure the image / table was generated from, and
-are compared line by line with the Lean model `Ebv.Eeprom` (Drivers/C17.lean)."""
+are compared line by line with the Lean model `Ebv.Eeprom` (Drivers/C17.lean).
+
+Round 6: histories (`op: hist`).  1..3 real Terminal / EBPFTerminal objects on one bus object stay alive for a whole
+case; their EEPROMs change under them (words rewritten by the real `eeprom_write_one` through the register protocol,
+the device behind the address exchanged for one with another image / read size / busy profile / object dictionary),
+a read is cut after n bus accesses (error or cancellation), and they read again through `read_eeprom`,
+`initialize` -> `apply_eeprom` of their class, or `gentle_initialize`, and derive `parse_sync_managers` / `parse_pdos`
+again — interleaved over the terminals.  After every step the oracle compares what the terminal holds with the
+structure the device holds NOW (declared by the generator for every write and exchange); the Lean model
+`Ebv.Eeprom.runObs` (Ebv/Model/EepromHist.lean) is compared step by step."""
 import asyncio
 import logging
 import struct
 
 ID = "C17"
-LEAN_MODULES = ["Ebv.Props.C17"]
-MODEL_MODULES = ["Ebv.Model.Eeprom"]
+LEAN_MODULES = ["Ebv.Props.C17", "Ebv.Props.C17Hist"]
+MODEL_MODULES = ["Ebv.Model.Eeprom", "Ebv.Model.EepromHist"]
 DRIVER = "Drivers/C17.lean"
 THEOREMS = [
     "Ebv.C17.read_one_exact", "Ebv.C17.getData_spec", "Ebv.C17.read_identity_exact",
@@ -20,18 +29,31 @@ THEOREMS = [
     "Ebv.C17.pdo_eeprom_source_exact", "Ebv.C17.pdo_sdo_source_exact",
     "Ebv.C17.parse_pdos_eeprom_exact", "Ebv.C17.parse_pdos_sdo_exact",
     "Ebv.C17.apply_eeprom_exact", "Ebv.C17.dictGet_dictOfFrom",
+    # histories on living terminals (round 6)
+    "Ebv.C17.read_bus_indep", "Ebv.C17.write_one_exact", "Ebv.C17.runW_slot", "Ebv.C17.instances_independent",
+    "Ebv.C17.hist_device_exact", "Ebv.C17.hist_read_present", "Ebv.C17.hist_read_wellformed",
+    "Ebv.C17.write_seen_by_next_read", "Ebv.C17.swap_seen_by_next_read", "Ebv.C17.failed_read_then_read",
+    "Ebv.C17.hist_derive_present", "Ebv.C17.hist_apply_present", "Ebv.C17.catTrace_spec", "Ebv.C17.runObs_get",
 ]
 TRUSTED = ["hand-written model Ebv.Eeprom of _eeprom_read_one/read_eeprom/parse_sync_managers/parse_pdos/"
            "EBPFTerminal.apply_eeprom, tied by exact output + bus-trace correspondence",
            "harness/vh/props/c17.py scripted EEPROM-interface device (the Python twin of Ebv.Eeprom.Dev/Poll); "
-           "EEPROM word addresses of the identity fields and SyncManager values regenerated into Ebv.Generated.Consts"]
+           "EEPROM word addresses of the identity fields and SyncManager values regenerated into Ebv.Generated.Consts",
+           "histories: hand-written model Ebv.Eeprom.act/runW (EepromHist.lean) of what a Terminal keeps between uses, of "
+           "eeprom_write_one and of a read cut after n accesses, tied by exact per-step correspondence; HDevice (write "
+           "command stores the word when it is issued, registers 4/0x130/0x800 for the initialisation paths)"]
 ASSUMPTIONS = ["the EEPROM interface behaves like the device model: status 0x502 bit 0x8000 = busy, bit 0x40 = 8 valid data "
                "bytes, data register shows the bytes at 2*address once not busy and anything while busy (and anything in "
                "bytes 4..7 in 4-byte mode); bytes beyond the end of the image read 0xff",
                "ec.roundtrip is the only way the anchored methods touch the bus; sdo_read is replaced by an object-dictionary "
                "lookup (SDO transfer itself is C16); parse_sdos is stubbed in the apply_eeprom runs",
                "well-formed SII image: 0x80 fixed bytes, categories (type != 0xffff, 16-bit word count, payload of that many "
-               "words), 0xffff marker; PDO tables are `Aligned` (byte entries have size 8/16/32/64 and start on a byte)"]
+               "words), 0xffff marker; PDO tables are `Aligned` (byte entries have size 8/16/32/64 and start on a byte)",
+               "histories: the EEPROM stores a word when the write command 0x201 is issued (cells beyond the image do not exist), "
+               "error bits 0x7f00 of the status after it follow the script; a cut read = the bus stops answering accesses to 0x502 "
+               "after n of them (error raised by roundtrip, or the caller cancelled); exchanging a device replaces image, read size, "
+               "object dictionary and address register at once; concurrent EEPROM operations on one terminal are not considered "
+               "(the register interface has no lock in the code)"]
 RULE = ("read_one: random image x word address x 4/8-byte mode x busy script (random busy runs, status bits, junk data); "
         "eeprom: 0x80 random fixed bytes + 0..8 categories (typical and random 16-bit types, rarely duplicated, 0..20 words "
         "odd and even, sometimes up to 300) + marker + random tail, malformed variants (no marker, truncated); "
@@ -39,7 +61,11 @@ RULE = ("read_one: random image x word address x 4/8-byte mode x busy script (ra
         "pdos: PDO records for categories 50/51 or object dictionaries for 0x1c12/0x1c13 with bit, byte and padding "
         "entries, mostly aligned, some misaligned / odd sizes / truncated / missing objects; apply: whole images with "
         "categories 41, 50, 51 run through EBPFTerminal.apply_eeprom; non-trivial = at least one category / record / "
-        "mapped entry")
+        "mapped entry; hist: 1..3 living Terminal/EBPFTerminal objects x 2..5 episodes of (1..3 words rewritten by "
+        "eeprom_write_one: identity, payload, sync-manager field, PDO entry index/size, category type, early end marker, "
+        "tail, beyond the image | device exchanged for a new or closely related one with other read size | read cut after "
+        "n accesses by error or cancellation) -> read_eeprom / initialize / apply_eeprom / gentle_initialize -> "
+        "parse_sync_managers, parse_pdos, other terminals in between; non-trivial = several terminals or a change")
 
 
 # ---------------------------------------------------------------- the scripted device
@@ -243,7 +269,197 @@ def run_apply(case):
     return {"t": t, "res": res, "snap": snap, "writes": dev.writes, "out": out}
 
 
-RUN = {"read_one": run_read_one, "eeprom": run_eeprom, "sm": run_sm, "pdos": run_pdos, "apply": run_apply}
+# ---------------------------------------------------------------- histories on living Terminal objects
+
+class Cut(Exception):
+    pass
+
+
+class HDevice(Device):
+    """the device behind one terminal address in a history: EEPROM interface with read AND write command,
+    object dictionary, the few other registers the initialisation paths touch.  Python twin of
+    Ebv.Eeprom.Slot (dev, od, addr) / writeLoop / the cut of doRead"""
+    def __init__(self, image, mode8, od):
+        Device.__init__(self, bytearray(image), mode8, [])
+        self.od = {(i, s): bytes.fromhex(d) for i, s, d in od}
+        self.regs800 = bytes(0x80)
+        self.fmmus = 2
+        self.begin([])
+
+    def begin(self, script, budget=None, how="error", regs=None):
+        self.script = [(b, e, bytes.fromhex(j)) for b, e, j in script]
+        self.log, self.writes = [], []
+        self.budget, self.how, self.count, self.cut_hit = budget, how, 0, False
+        if regs is not None:
+            self.regs800 = regs
+
+    def handle(self, cmd, data, pos, offset):
+        from ebpfcat.ethercat import ECCmd
+        if offset == 0x502 and cmd in (ECCmd.FPRD, ECCmd.FPWR):
+            if self.budget is not None and self.count >= self.budget:
+                self.cut_hit = True
+                self.log.append("X")
+                raise Cut()
+            self.count += 1
+        if cmd is ECCmd.FPWR and offset == 0x502 and len(data) == 8:
+            ctl, a, v = struct.unpack("<HIH", data)
+            assert ctl == 0x201, ctl
+            self.addr = a
+            if 2 * a + 2 <= len(self.image):
+                self.image[2 * a:2 * a + 2] = struct.pack("<H", v)
+            self.log.append(f"W{a}:{v}")
+            return data
+        if cmd is ECCmd.FPWR and offset == 0x502 and len(data) == 2:
+            assert data == b"\0\0", data
+            self.log.append("c")
+            return data
+        if cmd is ECCmd.FPRD and offset == 4:
+            return bytes([self.fmmus]) + bytes(len(data) - 1)
+        if cmd is ECCmd.FPRD and offset == 0x130:
+            return struct.pack("<H2xH", 2, 0)[:len(data)]           # PRE_OPERATIONAL, no error
+        if cmd is ECCmd.FPRD and offset == 0x800:
+            return (self.regs800 + bytes(len(data)))[:len(data)]
+        return Device.handle(self, cmd, data, pos, offset)
+
+
+def make_world(case):
+    """the real Terminal / EBPFTerminal objects of a history on ONE bus object; they live for the whole case"""
+    from ebpfcat.ethercat import EtherCat, EtherCatError, Terminal
+    from ebpfcat.ebpfcat import EBPFTerminal
+    devs = {}
+
+    class Queue:
+        def put_nowait(self, item):
+            cmd, out, idx, pos, offset, future = item
+            dev = devs[pos]
+            try:
+                res = dev.handle(cmd, out, pos, offset)
+            except Cut:
+                if dev.how == "cancel":
+                    asyncio.current_task().cancel()      # the answer never comes, the caller gives up
+                else:
+                    future.set_exception(EtherCatError("timeout"))
+                return
+            future.set_result(res)
+
+    class EC:
+        roundtrip = EtherCat.roundtrip
+        get_mbx_lock = EtherCat.get_mbx_lock
+
+        def __init__(self):
+            self.send_queue = Queue()
+
+    ec = EC()
+    terms = []
+    for k, (tm, d) in enumerate(zip(case["terms"], case["devs"])):
+        pos = 7 + k
+        devs[pos] = HDevice(bytes.fromhex(d["image"]), d["mode8"], d["od"])
+        t = (EBPFTerminal if tm["cls"] == "E" else Terminal)(ec)
+        t.position = pos
+        t._snaps = snaps = []
+        real_psm = t.parse_sync_managers
+
+        def psm(data, t=t, real_psm=real_psm, snaps=snaps):      # observe the state right after the real parse
+            ok = "ok"
+            try:
+                real_psm(data)
+            except Exception as e:
+                ok = exc_name(e)
+                raise
+            finally:
+                snaps.append((ok, sm_snapshot(t)))
+        t.parse_sync_managers = psm
+
+        async def sdo_read(index, subindex=None, pos=pos):           # the object dictionary of the device present NOW
+            try:
+                return devs[pos].od[index, subindex]
+            except KeyError:
+                raise EtherCatError(f"no object {index:x}:{subindex}")
+        t.sdo_read = sdo_read
+
+        async def parse_sdos():
+            pass
+        t.parse_sdos = parse_sdos
+        terms.append(t)
+    return devs, terms
+
+
+def tview(t):
+    g = lambda n: getattr(t, n, "?")
+    return " | ".join([
+        f"id={g('vendorId')},{g('productCode')},{g('revisionNo')},{g('serialNo')}",
+        show_cats(t.eeprom) if hasattr(t, "eeprom") else "no-eeprom",
+        show_sm("", sm_snapshot(t))[1:] if hasattr(t, "mbx_out_off") else "no-sm",
+        show_pdos(t.pdos) if hasattr(t, "pdos") else "no-pdos"])
+
+
+def hist_step(loop, devs, terms, st, cls):
+    """one step through the real code; returns what the step shows"""
+    k, do = st["k"], st["do"]
+    t, pos = terms[k], 7 + k
+    if do == "swap":
+        devs[pos] = HDevice(bytes.fromhex(st["image"]), st["mode8"], st["od"])
+        return {"res": "ok", "snap": None, "writes": [], "dev": devs[pos]}
+    dev = devs[pos]
+    dev.begin(st.get("script", []), st.get("n") if do == "cut" else None, st.get("how", "error"),
+              bytes.fromhex(st["regs"]) if do == "gentle" else None)
+    del t._snaps[:]
+    res = "ok"
+    try:
+        if do in ("read", "cut"):
+            loop.run_until_complete(t.read_eeprom())
+        elif do == "write":
+            loop.run_until_complete(t.eeprom_write_one(st["start"], st["data"]))
+        elif do == "sm":
+            e = getattr(t, "eeprom", None)
+            if e is None or 41 not in e:
+                res = "skipped"
+            else:
+                t.parse_sync_managers(e[41])
+        elif do == "pdos":
+            ret = loop.run_until_complete(t.parse_pdos())
+            res = f"ok {ret[0]} {ret[1]}"
+        elif do == "apply":
+            loop.run_until_complete(t.initialize(absolute=pos) if st["via"] == "init" else t.apply_eeprom())
+            if cls == "E":
+                res = f"ok {t.pdo_out_sz} {t.pdo_in_sz}"
+        elif do == "gentle":
+            loop.run_until_complete(t.gentle_initialize(absolute=pos))
+    except (Exception, asyncio.CancelledError) as e:
+        res = "failed" if dev.cut_hit else exc_name(e)
+    return {"res": res, "snap": t._snaps[-1] if t._snaps else None, "writes": list(dev.writes), "dev": dev}
+
+
+def run_hist(case):
+    devs, terms = make_world(case)
+    loop = asyncio.new_event_loop()
+    outs, obs = [], []
+    try:
+        for st in case["steps"]:
+            o = hist_step(loop, devs, terms, st, case["terms"][st["k"]]["cls"])
+            t = terms[st["k"]]
+            w800 = [d for off, d in o["writes"] if off == 0x800]
+            o["line"] = " | ".join([f"{st['do']}:{o['res']}", tview(t), show_sm(*o["snap"]) if o["snap"] else "-",
+                                   w800[-1].hex() if w800 else "-", o["dev"].show()])
+            o["ids"] = tuple(getattr(t, n, None) for n in ("vendorId", "productCode", "revisionNo", "serialNo"))
+            o["eeprom"] = {a: bytes(b) for a, b in t.eeprom.items()} if hasattr(t, "eeprom") else None
+            o["pdos"] = dict(t.pdos) if hasattr(t, "pdos") else None
+            o["image"] = bytes(o["dev"].image)
+            o["cls"] = case["terms"][st["k"]]["cls"]
+            outs.append(o["line"])
+            obs.append(o)
+        fin = [{"ids": tuple(getattr(t, n, None) for n in ("vendorId", "productCode", "revisionNo", "serialNo")),
+                "eeprom": {a: bytes(b) for a, b in t.eeprom.items()} if hasattr(t, "eeprom") else None,
+                "pdos": dict(t.pdos) if hasattr(t, "pdos") else None,
+                "sm": sm_snapshot(t) if hasattr(t, "mbx_out_off") else None, "line": tview(t)} for t in terms]
+    finally:
+        loop.close()
+    # all terminals once more at the end: what one of them holds must not have been touched through another one
+    return {"obs": obs, "fin": fin, "out": " || ".join(outs) + " || final: " + " ## ".join(f["line"] for f in fin)}
+
+
+RUN = {"read_one": run_read_one, "eeprom": run_eeprom, "sm": run_sm, "pdos": run_pdos, "apply": run_apply,
+       "hist": run_hist}
 
 
 def run_case(case):
@@ -384,10 +600,140 @@ def oracle_apply(ctx, case, r):
                 case, [(o, d.hex()) for o, d in got_w], "apply-write")
 
 
+def want_cats(st):
+    want = {}
+    for ty, payload in st["cats"]:
+        want[ty] = bytes.fromhex(payload)
+    return want
+
+
+def oracle_hist(ctx, case, r):
+    """the property along a history, decided from declared facts only: `cur[k]` is the structure the device behind
+    terminal k was built from / rewritten to (every write and exchange step declares it), `seen[k]` the structure
+    at the terminal's last complete read, `tab[k]` the sync-manager table its last parse_sync_managers was given.
+    A read returns what is stored in the device NOW; the layouts derived afterwards are those stored in what was read."""
+    from ebpfcat.ethercat import SyncManager
+    structs = case["structs"]
+    nt = len(case["terms"])
+    cur = [d["st"] for d in case["devs"]]
+    seen, tab, lastp = [None] * nt, [None] * nt, [None] * nt
+    for i, (st, o) in enumerate(zip(case["steps"], r["obs"])):
+        k, do, res = st["k"], st["do"], o["res"]
+        where = f"step {i} ({do} on terminal {k})"
+        ebpf = o["cls"] == "E"
+        if o["snap"] is not None:
+            tab[k] = None               # parse_sync_managers ran: the table is known again once it is checked below
+        if do == "pdos" or (do == "apply" and ebpf):
+            lastp[k] = None
+        if do in ("write", "swap"):
+            cur[k] = st["st"]
+            if do == "write":
+                S = structs[cur[k]]
+                ctx.require(res == "ok" and o["image"] == build_image(bytes.fromhex(S["hdr"]), S["cats"], bytes.fromhex(S["tail"])),
+                            f"{where}: eeprom_write_one did not store the word in the device", case, o["line"], "write")
+            continue
+        S = structs[cur[k]]
+        if do in ("read", "cut", "apply", "gentle"):
+            if res == "failed":
+                seen[k] = None          # a cut read: nothing is promised about the attributes, only about the next read
+                continue
+            hdr = bytes.fromhex(S["hdr"])
+            want_id = (le(hdr[16:20]), le(hdr[20:24]), le(hdr[24:28]), le(hdr[28:32]))
+            ctx.require(o["ids"] == want_id, f"{where}: identity fields differ from words 8..15 of the image stored in the "
+                        "device now", case, o["line"], "identity")
+            ctx.require(o["eeprom"] == want_cats(S), f"{where}: categories differ from the image stored in the device now "
+                        "(type -> payload)", case, o["line"], "categories")
+            seen[k] = cur[k]
+        if do == "read" or do == "cut":
+            continue
+        if do == "gentle":
+            ctx.require(o["snap"] == ("ok", sm_expect(st["table"])), f"{where}: sync-manager areas differ from the registers",
+                        case, o["line"], "sync-managers")
+            tab[k] = st["table"]
+            continue
+        if seen[k] is None:
+            continue                    # derived from a partial / never read eeprom attribute: correspondence only
+        R = structs[seen[k]]
+        cats = want_cats(R)
+        if do in ("sm", "apply"):
+            if 41 not in cats:
+                if do == "sm":
+                    ctx.require(res == "skipped", f"{where}: no category 41", case, o["line"], "sync-managers")
+                continue                # nothing stored to derive the sync managers from
+            want_sm = sm_expect(R["sm_table"])
+            ctx.require(o["snap"] == ("ok", want_sm), f"{where}: sync-manager areas differ from category 41 as read",
+                        case, o["line"], "sync-managers")
+            tab[k] = R["sm_table"]
+            if do == "sm":
+                continue
+            w800 = [d for off, d in o["writes"] if off == 0x800]
+            ctx.require(w800 == [bytes(0x80), cats[41]], f"{where}: sync-manager registers not cleared and loaded with "
+                        "category 41", case, o["line"], "sm-write")
+            if not ebpf:
+                ctx.require(res == "ok", f"{where}: Terminal.apply_eeprom failed", case, o["line"], "apply")
+                continue
+        if tab[k] is None:
+            continue
+        want_sm = sm_expect(tab[k])
+        mbx = want_sm[0] is not None and want_sm[2] is not None
+        if mbx:
+            eo, ei = S["sdo_out"], S["sdo_in"]          # the object dictionary of the device present now
+            if eo is None or ei is None:
+                continue
+        else:
+            eo = R["pdo_out"] if 51 in cats else None
+            ei = R["pdo_in"] if 50 in cats else None
+        exp = {}
+        ob = 0 if eo is None else pdo_expect(eo, SyncManager.OUT.value, exp)
+        ib = None if ob is None else (0 if ei is None else pdo_expect(ei, SyncManager.IN.value, exp))
+        if ob is None or ib is None:
+            ctx.require(res in ("runtime-error", "key-error"), f"{where}: a PDO table that is not byte-aligned was accepted",
+                        case, o["line"], "pdo-reject")
+            continue
+        if do == "pdos":
+            if ctx.require(res == f"ok {ob} {ib}" and norm_pdos(o["pdos"]) == exp, f"{where}: pdos differ from (sm, sum of "
+                           "previous bits / 8, bit or format) of the stored entries", case, o["line"], "pdos"):
+                lastp[k] = exp
+            continue
+        osz, isz = (ob + 7) // 8, (ib + 7) // 8
+        if (osz and not want_sm[4]) or (isz and not want_sm[6]):
+            ctx.require(res == "assertion-error", f"{where}: process data without a sync-manager area was accepted",
+                        case, o["line"], "apply")
+            continue
+        if ctx.require(res == f"ok {osz} {isz}" and norm_pdos(o["pdos"]) == exp,
+                       f"{where}: apply_eeprom: pdos / process-data sizes differ from the stored layout", case, o["line"], "apply"):
+            lastp[k] = exp
+        oa, ia = want_sm[9], want_sm[8]
+        want_w = [(oa + 6, b"\0"), (oa + 2, struct.pack("<H", osz)), (oa + 6, bytes([osz > 0])),
+                  (ia + 6, b"\0"), (ia + 2, struct.pack("<H", isz)), (ia + 6, bytes([isz > 0]))]
+        got_w = [(a, d) for a, d in o["writes"] if a not in (0x800, 0x120, 0x60c, 0x61c)]
+        ctx.require(got_w == want_w, f"{where}: sync-manager length registers not written with the decoded sizes / addresses",
+                    case, [(a, d.hex()) for a, d in got_w], "apply-write")
+    # at the end every terminal still holds what IT read and derived last (nothing came in through another instance)
+    for k, f in enumerate(r["fin"]):
+        where = f"end of the history, terminal {k}"
+        if seen[k] is not None:
+            S = structs[seen[k]]
+            hdr = bytes.fromhex(S["hdr"])
+            ctx.require(f["ids"] == (le(hdr[16:20]), le(hdr[20:24]), le(hdr[24:28]), le(hdr[28:32])) and f["eeprom"] == want_cats(S),
+                        f"{where}: identity / categories are no longer those of its last read", case, f["line"], "kept")
+        if lastp[k] is not None:
+            ctx.require(f["pdos"] is not None and norm_pdos(f["pdos"]) == lastp[k],
+                        f"{where}: pdos are no longer those of its last parse_pdos", case, f["line"], "kept")
+        if tab[k] is not None and f["sm"] is not None:
+            keep = (0, 1, 2, 3, 4, 6, 8, 9)         # the process-data sizes are replaced by apply_eeprom
+            want = sm_expect(tab[k])
+            ctx.require([f["sm"][i] for i in keep] == [want[i] for i in keep],
+                        f"{where}: sync-manager areas are no longer those of its last parse_sync_managers", case, f["line"], "kept")
+
+
 def judge(ctx, case, r):
     op = case["op"]
     if "exc" in r:
         ctx.require(False, f"{op}: the real code raised {r['exc']}", case, r["out"], "raised")
+        return
+    if op == "hist":
+        oracle_hist(ctx, case, r)
         return
     if op == "read_one":
         oracle_read_one(ctx, case, r)
@@ -702,6 +1048,180 @@ def gen_apply(rng):
             "od": [[i, s, d.hex()] for (i, s), d in sorted(od.items())], "struct": st}
 
 
+def gen_device(rng, like=None):
+    """a device for a history: whole image with categories 41/50/51 + object dictionary + the structure it was built
+    from (as gen_apply, the PDO lists are kept so that single words can be rewritten structurally)"""
+    c = gen_apply(rng)
+    st = c["struct"]
+    if like is not None and rng.random() < 0.5:
+        # a close relative of the device that was there: same types, other contents / one category gone
+        cats = [[ty, p] for ty, p in like["cats"] if ty not in (41, 50, 51)]
+        if cats and rng.random() < 0.6:
+            del cats[rng.randrange(len(cats))]
+        cats = [[ty, rbytes(rng, len(p) // 2).hex() if rng.random() < 0.5 else p] for ty, p in cats]
+        cats += [x for x in st["cats"] if x[0] in (41, 50, 51)]
+        rng.shuffle(cats)
+        st["cats"] = cats
+        if rng.random() < 0.5:
+            st["hdr"] = like["hdr"]
+        c["image"] = build_image(bytes.fromhex(st["hdr"]), cats, bytes.fromhex(st["tail"])).hex()
+    return {"image": c["image"], "mode8": c["mode8"], "od": c["od"], "struct": st}
+
+
+def cat_word(cats, i):
+    """word address of the header of category i"""
+    return 64 + sum(2 + len(p) // 4 for _, p in cats[:i])
+
+
+def patch(payload_hex, word, val):
+    b = bytearray(bytes.fromhex(payload_hex))
+    b[2 * word:2 * word + 2] = struct.pack("<H", val)
+    return bytes(b).hex()
+
+
+def gen_write(rng, st):
+    """one eeprom_write_one(start, data) and the structure of the image afterwards, updated field by field"""
+    import copy
+    st = copy.deepcopy(st)
+    cats = st["cats"]
+    val = rng.choice([0, 1, 0xffff, 0xfffe, 0x00ff, rng.randrange(0x10000), rng.randrange(0x10000)])
+    generic = [i for i, (ty, p) in enumerate(cats) if ty not in (41, 50, 51)]
+    filled = [i for i in generic if cats[i][1]]
+    i41 = [i for i, (ty, p) in enumerate(cats) if ty == 41 and p]
+    ipdo = [i for i, (ty, p) in enumerate(cats) if ty in (50, 51) and len(p) >= 32]
+    kind = rng.choice(["id", "id", "payload", "payload", "payload", "sm", "sm", "pdo", "pdo", "type", "cut", "tail", "beyond"])
+    if kind == "payload" and filled:
+        i = rng.choice(filled)
+        w = rng.randrange(len(cats[i][1]) // 4)
+        cats[i][1] = patch(cats[i][1], w, val)
+        return cat_word(cats, i) + 2 + w, val, st
+    if kind == "sm" and i41 and st["sm_table"]:
+        i = i41[0]
+        table = st["sm_table"]
+        rec, f = rng.randrange(len(table)), rng.randrange(4)
+        if f == 2 and rng.random() < 0.7:       # the kind of the area changes
+            val = rng.choice([0x20, 0x22, 0x24, 0x26, 0x64, 0x06]) | (val & 0xff00)
+        if f < 2:
+            table[rec][f] = val
+        elif f == 2:
+            table[rec][2], table[rec][3] = val & 0xff, val >> 8
+        else:
+            table[rec][4], table[rec][5] = val & 0xff, val >> 8
+        cats[i][1] = enc_sm(table).hex()
+        return cat_word(cats, i) + 2 + 4 * rec + f, val, st
+    if kind == "pdo" and ipdo:
+        i = rng.choice(ipdo)
+        ty, payload = cats[i]
+        raw = bytes.fromhex(payload)
+        # walk the records the category was built from: 8-byte PDO header, 8 bytes per entry
+        offs, o, flatpos = [], 0, 0
+        while o < len(raw):
+            n = raw[o + 2]
+            offs += [(o + 8 + 8 * j, flatpos + j) for j in range(n)]
+            o += 8 + 8 * n
+            flatpos += n
+        if offs:
+            eo, j = rng.choice(offs)
+            entries = st["pdo_out" if ty == 51 else "pdo_in"]
+            if rng.random() < 0.5:              # the index of the entry (0 turns it into padding)
+                val = rng.choice([0, 0x6000, 0x7000, rng.randrange(1, 0x10000)])
+                used = {(e[0], e[1]) for l in (st["pdo_out"], st["pdo_in"]) for e in l}
+                if val and (val, entries[j][1]) in used:
+                    val = 0
+                entries[j][0] = val
+                w = eo // 2
+            else:                               # its size in bits (keeps the reserved low byte)
+                bits = rng.choice([1, 2, 7, 8, 16, 32, 64, 24, 0])
+                val = raw[eo + 4] | bits << 8
+                entries[j][2] = bits
+                w = eo // 2 + 2
+            cats[i][1] = patch(payload, w, val)
+            return cat_word(cats, i) + 2 + w, val, st
+    if kind == "type" and generic:
+        i = rng.choice(generic)
+        used = {ty for ty, _ in cats}
+        val = next(x for x in range(rng.randrange(1, 0xff00), 0xffff) if x not in used and x not in (41, 50, 51))
+        cats[i][0] = val
+        return cat_word(cats, i), val, st
+    if kind == "cut" and cats:
+        i = rng.randrange(len(cats))
+        start = cat_word(cats, i)
+        img = build_image(bytes.fromhex(st["hdr"]), cats, bytes.fromhex(st["tail"]))
+        st["tail"] = img[2 * start + 2:].hex()
+        st["cats"] = cats[:i]
+        return start, 0xffff, st
+    if kind == "tail" and len(st["tail"]) >= 4:
+        w = rng.randrange(len(st["tail"]) // 4)
+        st["tail"] = patch(st["tail"], w, val)
+        return cat_word(cats, len(cats)) + 1 + w, val, st
+    if kind == "beyond":
+        n = len(build_image(bytes.fromhex(st["hdr"]), cats, bytes.fromhex(st["tail"])))
+        return (n + 1) // 2 + rng.randrange(0, 4), val, st      # a last odd byte is no whole word either
+    w = rng.randrange(8, 16)
+    st["hdr"] = patch(st["hdr"], w, val)
+    return w, val, st
+
+
+def gen_hist(rng):
+    """a history on 1..3 living terminals: episodes of (the EEPROM changes: words rewritten / device exchanged |
+    a read fails) -> read again through one of the real paths -> layouts derived again, interleaved over the terminals"""
+    nt = rng.choice([1, 1, 2, 2, 3])
+    structs, devs, cur = [], [], []
+    terms = [{"cls": rng.choice("TE")} for _ in range(nt)]
+    for k in range(nt):
+        d = gen_device(rng)
+        structs.append(d.pop("struct"))
+        d["st"] = len(structs) - 1
+        devs.append(d)
+        cur.append(d["st"])
+    images = [d["image"] for d in devs]
+    steps = []
+
+    def script(k):
+        return script_for(rng, bytes.fromhex(images[k]))
+
+    def reader(k):
+        r = rng.random()
+        if r < 0.55:
+            return {"k": k, "do": "read", "script": script(k)}
+        if r < 0.85:
+            return {"k": k, "do": "apply", "via": rng.choice(["init", "apply"]), "script": script(k)}
+        table = gen_sm_table(rng)
+        table += [[0, 0, 0, 0, 0, 0] if rng.random() < 0.8 else [rng.randrange(0x10000), rng.randrange(0x10000),
+                  rng.randrange(256), 0, 0, 0] for _ in range(16 - len(table))]
+        return {"k": k, "do": "gentle", "regs": enc_sm(table).hex(), "table": table, "script": script(k)}
+
+    for _ in range(rng.randrange(2, 6)):
+        k = rng.randrange(nt)
+        r = rng.random()
+        if steps and r < 0.35:
+            for _ in range(rng.choice([1, 1, 2, 3])):
+                start, val, st = gen_write(rng, structs[cur[k]])
+                structs.append(st)
+                cur[k] = len(structs) - 1
+                images[k] = build_image(bytes.fromhex(st["hdr"]), st["cats"], bytes.fromhex(st["tail"])).hex()
+                steps.append({"k": k, "do": "write", "start": start, "data": val, "st": cur[k],
+                              "script": gen_script(rng, rng.choice([0, 3, 8]))})
+        elif steps and r < 0.6:
+            d = gen_device(rng, like=structs[cur[k]])
+            structs.append(d.pop("struct"))
+            cur[k] = len(structs) - 1
+            images[k] = d["image"]
+            steps.append({"k": k, "do": "swap", "st": cur[k], **d})
+        elif (r < 0.72) if steps else (r < 0.15):
+            n = len(images[k]) // 2
+            steps.append({"k": k, "do": "cut", "how": rng.choice(["error", "cancel"]), "script": script(k),
+                          "n": rng.choice([0, 1, 2, 3, 5, 7, 8, 9, 11, rng.randrange(0, n // 2 + 12), rng.randrange(0, 2 * n + 12)])})
+        if rng.random() < 0.92:
+            steps.append(reader(k))
+        r = rng.random()
+        for do in (["sm", "pdos"] if r < 0.5 else ["pdos"] if r < 0.65 else ["sm"] if r < 0.75 else ["pdos", "sm", "pdos"] if r < 0.8 else []):
+            steps.append({"k": k, "do": do})
+        if nt > 1 and rng.random() < 0.5:           # another terminal in between
+            steps.append(reader(rng.randrange(nt)))
+    return {"op": "hist", "terms": terms, "devs": devs, "steps": steps, "structs": structs}
+
+
 def fixed_cases():
     """small deterministic family: every payload size 0..9 words at every carry-over phase, both read modes"""
     out = []
@@ -730,6 +1250,8 @@ def nontrivial(case):
     if op == "pdos":
         st = case.get("struct")
         return st is not None and any(e[0] for l in (st["out"], st["in"]) if l for e in l)
+    if op == "hist":
+        return len(case["terms"]) > 1 or any(s["do"] in ("write", "swap", "cut") for s in case["steps"])
     return True
 
 
@@ -748,6 +1270,9 @@ def kind(case, r):
         return "sm:" + r["ok"]
     if op == "pdos":
         return f"pdos:{'sdo' if case['mbx'] else 'eeprom'}:{r['res'].split()[0]}"
+    if op == "hist":
+        does = {s["do"] for s in case["steps"]}
+        return f"hist:{len(case['terms'])}t" + "".join(":" + d for d in ("write", "swap", "cut") if d in does)
     return "apply:" + r["res"].split()[0]
 
 
@@ -762,13 +1287,14 @@ def run(ctx):
     cases += [gen_sm(rng) for _ in range(ctx.n(2500, 30000))]
     cases += [gen_pdos(rng) for _ in range(ctx.n(3000, 40000))]
     cases += [gen_apply(rng) for _ in range(ctx.n(800, 10000))]
+    cases += [gen_hist(rng) for _ in range(ctx.n(700, 8000))]
     impl = []
     for c in cases:
         r = run_case(c)
         impl.append(r["out"])
         ctx.case(c, nontrivial=nontrivial(c), kind=kind(c, r))
         judge(ctx, c, r)
-    slim = [{k: v for k, v in c.items() if k not in ("struct", "table")} for c in cases]
+    slim = [{k: v for k, v in c.items() if k not in ("struct", "table", "structs")} for c in cases]
     model = ctx.drive(DRIVER, slim, "eeprom decoding")
     if model is not None:
         for c, i, m in zip(cases, impl, model):
@@ -788,6 +1314,11 @@ LEVEL_TEXT = ("Lean 4 proof over a hand-written model of the EEPROM access and l
               "words, and terminates on every image; parse_sync_managers returns the last record of each kind with its "
               "register address; parse assigns every mapped entry (sm, sum of previous bits / 8, bit or format letter) for "
               "every aligned entry list, rejects every other list, for both the category 50/51 and the 0x1c12/0x1c13 source. "
+              "Histories: for every world of terminals and every history of reads, cut reads, writes, exchanges and "
+              "derivations, a read returns what a fresh terminal reads from the image present now (no influence of earlier "
+              "reads, of the bus state, of other terminals), a written word / exchanged device is seen by the next read, "
+              "a cut read is followed by a correct one, and sync managers / PDOs derived afterwards are those of the "
+              "present image and object dictionary. "
               "Tied to /repo by exact output and bus-trace correspondence of the real methods (through the real roundtrip "
               "codec) on a scripted EEPROM-interface device, and by an oracle computed from the generating structure.")
 LEVEL_NOTE = ("trusted: Lean kernel + propext/Classical.choice/Quot.sound; hand transcription Ebv.Eeprom validated (not verified) "
